@@ -183,6 +183,12 @@ def parse_overlay(path):
             flush()
             m = re.match(r'@(before|after|wrap)\s+"(.*)"(?:\s+#(\d+))?', st)
             sect = (m.group(1), m.group(2), int(m.group(3) or 1))
+        elif st.startswith('@annot'):
+            # T16 closure annotation, see weave_file. Section text: first line `params (<typed params>) -> (<name>: <type>)`,
+            # then requires/ensures clauses for the closure (Verus closure syntax).
+            flush()
+            m = re.match(r'@annot\s+"(.*)"(?:\s+#(\d+))?', st)
+            sect = ('annot', m.group(1), int(m.group(2) or 1))
         elif st.startswith('@closure'):
             # T15 closure conversion, see weave_file. Section text: `sig <generics>(params) -> (r: impl FnMut(..) + 'a)`,
             # `call factory(args)`, then the factory's requires/ensures clauses verbatim.
@@ -681,6 +687,48 @@ class Weaver:
                     edits.append((p, cend, rep(call, ctext)))
                     factories.append(ins(f"{cid0}:T15[{name}]", props,
                                          f"\n#[verifier::external_body]\nfn {name}{sig}\n{clauses}\n{{\n    move {ctext}\n}}\n"))
+                # T16 closure annotation. `@annot "needle"`: the closure literal `|params| EXPR` that follows the needle (an
+                # argument of a call, EXPR not a block) becomes `|typed params| -> (r: T) requires .. ensures .. { EXPR }`:
+                # same closure (parameter types and the return type were inferred before, are written out now; braces
+                # around an expression do not change it), but now with a contract Verus proves against EXPR and uses at
+                # the callee (`f.requires` / `f.ensures`). Erasure restores `|params| EXPR`.
+                for (needle, nth), text in spec.get('annot', []):
+                    idxs = [m.end() for m in re.finditer(re.escape(needle), body) if code(f['open'] + m.start())]
+                    tg = set(props)
+                    for tm in re.finditer(r'(?m)^\s*\[((?:C\d+)(?:,C\d+)*)\]', text): tg |= set(tm.group(1).split(','))
+                    if nth > len(idxs):
+                        self.soft_lost.append({'desc': f"{rel}: annotated closure \"{needle}\" #{nth} in {qual}", 'props': sorted(tg)}); continue
+                    p = f['open'] + idxs[nth - 1]
+                    while p < f['close'] and s[p] in ' \t\n': p += 1
+                    q = s.find('|', p + 1) if s[p] == '|' else -1
+                    lines = text.split('\n')
+                    params = next((l.strip()[7:].strip() for l in lines if l.strip().startswith('params ')), None)
+                    clauses = '\n'.join(l for l in lines if not l.strip().startswith('params '))
+                    if q < 0 or not params:
+                        self.soft_lost.append({'desc': f"{rel}: annotated closure \"{needle}\" #{nth} in {qual}: not a `|..| expr` closure", 'props': sorted(tg)}); continue
+                    k = q + 1
+                    while s[k] in ' \t\n': k += 1
+                    if s[k] == '{':
+                        self.soft_lost.append({'desc': f"{rel}: annotated closure \"{needle}\" #{nth} in {qual}: block body", 'props': sorted(tg)}); continue
+                    i = k; d = 0
+                    while i < f['close']:
+                        if mask[i]:
+                            if s[i] in '([{': d += 1
+                            elif s[i] in ')]}':
+                                if d == 0: break
+                                d -= 1
+                            elif s[i] in ',;' and d == 0: break
+                        i += 1
+                    e = i
+                    while s[e - 1] in ' \t\n': e -= 1
+                    mparams = re.match(r'\((.*)\)\s*->\s*(\(.*\))\s*$', params)
+                    if not mparams:
+                        self.lost.append(f"{rel}: @annot \"{needle}\" in {qual}: bad params line"); continue
+                    self.rec("T16", rel, s, p, f"closure annotation in {qual}")
+                    nid = re.sub(r'\s+', '_', needle)
+                    edits.append((p, q + 1, rep(f"|{mparams.group(1)}| -> {mparams.group(2)}", s[p:q + 1])))
+                    edits.append((k, k, ins(f"{cid0}:annot[{nid}#{nth}]", sorted(tg), clauses.rstrip() + '\n{ ')))
+                    edits.append((e, e, ins(f"{cid0}:annotend[{nid}#{nth}]", [], ' }')))
                 for kind in ('before', 'after'):
                     for (needle, nth), clause in spec.get(kind, []):
                         idxs = [m.start() for m in re.finditer(re.escape(needle), body) if code(f['open'] + m.start())]
